@@ -16,7 +16,8 @@ tvars == <<hdr, prev, cur, mb, l, viol, stats>>
 Stat0 == [cases |-> 0, steps |-> 0, ss_steps |-> 0, sl_steps |-> 0, clipped |-> 0, unclipped |-> 0, braking |-> 0,
           boundary |-> 0, multilink |-> 0, astride |-> 0, curved |-> 0, negerr |-> 0, othererr |-> 0, slerr |-> 0,
           rejected |-> 0, strap |-> 0, strap_rounded |-> 0, strap_drift |-> 0, strap_err |-> 0, getters |-> 0, inexact |-> 0,
-          ss_runs |-> 0, sl_runs |-> 0, sl_arrived |-> 0]
+          ss_runs |-> 0, sl_runs |-> 0, sl_arrived |-> 0, relisted |-> 0, relisted_res |-> 0, nolim |-> 0, clip_hi |-> 0,
+          clip_lo |-> 0, point_steps |-> 0, point_graded |-> 0, nolim_clip |-> 0, sl_t0 |-> 0, sl_mid_t0 |-> 0, vecs |-> 0, vec_sims |-> 0, vec_multi |-> 0]
 
 TInit == /\ l = 1 /\ viol = <<>> /\ stats = Stat0
          /\ hdr = Nil /\ prev = Nil /\ cur = Nil /\ mb = Nil
@@ -36,7 +37,11 @@ Hdr == /\ Rec[l].ev = "Hdr"
        /\ prev' = Nil /\ cur' = Nil /\ mb' = [neg |-> FALSE]
        /\ Report(Names(<< <<"ResTowed", Rec[l].mode = "ss" => ResTowedOf(hdr')>> >>))
        /\ stats' = [stats EXCEPT !.ss_runs = @ + B2N(Rec[l].mode = "ss"), !.sl_runs = @ + B2N(Rec[l].mode = "sl"),
-                                 !.inexact = @ + B2N(Rec[l].mode = "ss" /\ ~Rec[l].exact)]
+                                 !.inexact = @ + B2N(Rec[l].mode = "ss" /\ ~Rec[l].exact),
+                                 \* (coverage counters below come from what the run was GIVEN, not from values under test)
+                                 !.relisted = @ + B2N(Rec[l].relist), !.relisted_res = @ + B2N(Rec[l].relist /\ NRes(Rec[l]) > 0),
+                                 !.nolim = @ + B2N(Rec[l].nolim),
+                                 !.sl_t0 = @ + B2N(Rec[l].mode = "sl" /\ Rec[l].t0 # 0)]
 
 (* Step k of a set-speed run uses trace points k-1 and k: it must be refused iff one of them is negative (the   *)
 (* first trace point is never a step of its own: a negative first point makes step 1 the step to refuse).        *)
@@ -65,12 +70,15 @@ PwrChecks(h, p, c) ==
      <<"PwrDynCap", PwrDynCapOf(c)>>, <<"PwrEnergy", PwrEnergyOf(h, p, c)>>, <<"PwrEnergyPos", PwrEnergyPosOf(h, p, c)>>,
      <<"PwrEnergyNeg", PwrEnergyNegOf(h, p, c)>> >>
 (* a force record matches the definition at the state saved one step earlier or at its own state *)
+(* the clauses that do not depend on the resistance method; then those of the method the run used (Strap: over the *)
+(* train's length and at its ends; Point: the grade at the train's mid-point)                                       *)
 ResChecks(h, p, c) ==
   << <<"ResMass", ResMassOf(h, c)>>, <<"ResWeight", ResWeightOf(c)>>,
      <<"ResRolling", ResRollingOf(h, c)>>, <<"ResBearing", ResBearingOf(h, c)>>,
      <<"ResDavisB", ResDavisOf(h, p, c) \/ ResDavisOf(h, c, c)>>,
-     <<"ResAero", ResAeroOf(h, p, c) \/ ResAeroOf(h, c, c)>>,
-     <<"ResGrade", ResGradeOf(h, p, c) \/ ResGradeOf(h, c, c)>>,
+     <<"ResAero", ResAeroOf(h, p, c) \/ ResAeroOf(h, c, c)>> >> \o
+  IF h.res = "point" THEN << <<"ResGradePoint", ResGradePointOf(h, p, c) \/ ResGradePointOf(h, c, c)>> >> ELSE
+  << <<"ResGrade", ResGradeOf(h, p, c) \/ ResGradeOf(h, c, c)>>,
      <<"ResCurve", ResCurveOf(h, p, c) \/ ResCurveOf(h, c, c)>>,
      <<"ResElevFront", ResElevFrontOf(h, p, c) \/ ResElevFrontOf(h, c, c)>>,
      <<"ResGradeFront", ResGradeFrontOf(h, p, c) \/ ResGradeFrontOf(h, c, c)>>,
@@ -104,6 +112,13 @@ Step ==
              !.clipped = @ + B2N(ss /\ Abs(c.pw - (c.pa + c.pr)) > 4),
              !.unclipped = @ + B2N(ss /\ Abs(c.pw - (c.pa + c.pr)) <= 4 /\ c.pw # 0),
              !.braking = @ + B2N(c.pw < 0),
+             \* the un-clipped demand lies beyond the published traction limit / dynamic-braking capability
+             !.clip_hi = @ + B2N(ss /\ c.pa + c.pr > c.c.max + 4),
+             !.clip_lo = @ + B2N(ss /\ c.pa + c.pr < -Max2(c.c.dyn, 0) - 4),
+             !.nolim_clip = @ + B2N(ss /\ h.nolim /\ (c.pa + c.pr > c.c.max + 4 \/ c.pa + c.pr < -Max2(c.c.dyn, 0) - 4)),
+             !.point_steps = @ + B2N(ss /\ h.res = "point"),
+             !.point_graded = @ + B2N(ss /\ h.res = "point" /\ Slopes(h, p.x - h.len \div 2) # {0}),
+             !.sl_mid_t0 = @ + B2N(~ss /\ c.k = 1 /\ h.t0 # 0 /\ p.xb > 1),
              !.boundary = @ + B2N(LocLinkOf(h, c) /\ \E j \in Named(h, c) : c.xin = h.links[j].len /\ j < Len(h.links)),
              !.multilink = @ + B2N(LocLinkOf(h, c) /\ LocLinkOf(h, p) /\
                                    \E j \in Named(h, c), i \in Named(h, p) : j >= i + 2),
@@ -129,8 +144,23 @@ Get ==
      Report(Names(<< <<"GetPlain", GetPlainOf(g.fuel) /\ GetPlainOf(g.res) /\ GetPlainOf(g.km)>>,
                      <<"GetAnnual", /\ GetAnnualOf(g.fuel, g.days) /\ GetAnnualOf(g.res, g.days)
                                     /\ GetAnnualOf(g.km, g.days) /\ GetAnnualOf(g.mgkm, g.days)>>,
-                     <<"GetMgKm", GetMgKmOf(g)>> >>))
+                     <<"GetMgKm", GetMgKmOf(g)>>,
+                     <<"GetResKm", GetUnitKmOf(g.reskm, NRes(hdr)) /\ GetAnnualOf(g.reskm, g.days)>>,
+                     \* (wrap: the code's unsigned `number of units - count` went below zero: a panic or a wrapped value)
+                     <<"GetNonResKm", ~g.wrap /\ GetUnitKmOf(g.nonreskm, NNonRes(hdr)) /\ GetAnnualOf(g.nonreskm, g.days)>> >>))
   /\ stats' = [stats EXCEPT !.getters = @ + 1]
+
+(* outputs of a SpeedLimitTrainSimVec made of the finished runs of the case *)
+GetVec ==
+  /\ Rec[l].ev = "GetVec"
+  /\ UNCHANGED <<hdr, prev, cur, mb>>
+  /\ LET g == Rec[l] IN
+     /\ Report(Names(<< <<"VecFuel", Len(g.fuel[1]) = g.n /\ VecSumOf(g.fuel)>>, <<"VecRes", Len(g.res[1]) = g.n /\ VecSumOf(g.res)>>,
+                        <<"VecMgKm", Len(g.mgkm[1]) = g.n /\ VecSumOf(g.mgkm)>>, <<"VecKm", Len(g.km[1]) = g.n /\ VecSumOf(g.km)>>,
+                        <<"VecResKm", Len(g.reskm[1]) = g.n /\ VecSumOf(g.reskm)>>,
+                        \* (a simulation whose own count wrapped has been reported at its Get record: the sum is not judged then)
+                        <<"VecNonResKm", g.wrap \/ (Len(g.nonreskm[1]) = g.n /\ VecSumOf(g.nonreskm))>> >>))
+     /\ stats' = [stats EXCEPT !.vecs = @ + 1, !.vec_sims = @ + g.n, !.vec_multi = @ + B2N(g.n >= 2)]
 
 Done == /\ Rec[l].ev = "Done"
         /\ UNCHANGED <<hdr, prev, cur, mb, viol>>
@@ -176,7 +206,7 @@ End == /\ Rec[l].ev = "end"
        /\ UNCHANGED <<hdr, prev, cur, mb, stats>>
 
 TNext == /\ l <= Len(Rec) /\ l' = l + 1
-         /\ (Begin \/ Hdr \/ Step \/ StepErr \/ Get \/ Done \/ StrapHdr \/ Strap \/ Rejected \/ Panic \/ End)
+         /\ (Begin \/ Hdr \/ Step \/ StepErr \/ Get \/ GetVec \/ Done \/ StrapHdr \/ Strap \/ Rejected \/ Panic \/ End)
 TSpec == TInit /\ [][TNext]_tvars
 
 AtEnd == l > Len(Rec) => /\ PrintT(<<"VIOLS", ToJson(viol)>>)
